@@ -3,3 +3,4 @@ import Generated.LpLabels
 import Generated.Vartype
 import Generated.AbcSubst
 import Generated.Gates
+import Generated.VarsRules
